@@ -37,12 +37,15 @@ Proof.
   - intros H. rewrite (lstrip_by_all is_space s H). reflexivity.
 Qed.
 
-Lemma is_blank_nonblank : forall l, is_blank l = negb (nonblank l).
+Lemma ascii_space_is_space : forall c, ascii_space c = true -> is_space c = true.
+Proof. intros c H. unfold ascii_space in H. unfold is_space. lia. Qed.
+
+Lemma nonblank_not_blank : forall l, nonblank l = true -> is_blank l = false.
 Proof.
-  intros l. unfold is_blank, nonblank. destruct (strip l) eqn:E.
-  - apply strip_nil_iff in E. rewrite E. reflexivity.
-  - cbn [str_nonempty negb]. destruct (forallb is_space l) eqn:F; [|reflexivity].
-    apply strip_nil_iff in F. congruence.
+  intros l H. unfold is_blank. destruct (forallb ascii_space l) eqn:F; [|reflexivity].
+  assert (G : forallb is_space l = true).
+  { apply forallb_forall. intros c Hc. apply ascii_space_is_space. rewrite forallb_forall in F. apply F. exact Hc. }
+  apply strip_nil_iff in G. unfold nonblank in H. rewrite G in H. discriminate.
 Qed.
 
 Lemma norm_line_blank : forall l, nonblank l = false -> norm_line l = [].
@@ -60,36 +63,23 @@ Proof.
 Qed.
 
 (* ---- SRT: content of one cue -------------------------------------------------------------- *)
-(* authored lines as SRT/SAMI/legacy-DFXP spell them: every text node followed by one space *)
-Fixpoint sp_lines_aux (ns : list node) (cur : str) : list str :=
-  match ns with
-  | [] => [cur]
-  | NText s :: t => sp_lines_aux t (cur ++ s ++ [32])
-  | NBreak :: t => cur :: sp_lines_aux t []
-  | NStyle _ _ :: t => sp_lines_aux t cur
-  end.
-Definition sp_lines (ns : list node) : list str := sp_lines_aux ns [].
-
 Lemma split_srt_pieces : forall ns cur, texts_no 10 ns = true -> no_ch 10 cur = true ->
-  split_ch 10 (cur ++ concat (map srt_piece ns)) = sp_lines_aux ns cur.
+  split_ch 10 (cur ++ concat (map srt_piece ns)) = node_lines_aux ns cur.
 Proof.
   induction ns as [|n ns IH]; intros cur Ht Hc.
-  - cbn [map concat sp_lines_aux]. rewrite split_ch_app_nosep by exact Hc. cbn. rewrite app_nil_r. reflexivity.
-  - destruct n as [s| |st sty]; cbn [map concat srt_piece sp_lines_aux texts_no] in *.
-    + apply andb_true_iff in Ht. destruct Ht as [Hs Ht].
-      change (lit " ") with [32].
-      replace (cur ++ (s ++ [32]) ++ concat (map srt_piece ns)) with ((cur ++ s ++ [32]) ++ concat (map srt_piece ns))
-        by (rewrite <- !app_assoc; reflexivity).
-      apply IH; [exact Ht|]. rewrite !no_ch_app, Hc, Hs. reflexivity.
+  - cbn [map concat node_lines_aux]. rewrite split_ch_app_nosep by exact Hc. cbn. rewrite app_nil_r. reflexivity.
+  - destruct n as [s| |st sty]; cbn [map concat srt_piece node_lines_aux texts_no] in *.
+    + apply andb_true_iff in Ht. destruct Ht as [Hs Ht]. rewrite app_assoc.
+      apply IH; [exact Ht|]. rewrite no_ch_app, Hc, Hs. reflexivity.
     + rewrite split_ch_app_nosep by exact Hc. cbn [app]. rewrite split_ch_cons_sep, app_nil_r.
       rewrite <- (IH [] Ht eq_refl). reflexivity.
     + cbn [app]. apply IH; assumption.
 Qed.
 
 Theorem srt_raw_lines : forall ns, texts_no 10 ns = true ->
-  norm_lines (split_ch 10 (srt_raw ns)) = norm_lines (sp_lines ns).
+  norm_lines (split_ch 10 (srt_raw ns)) = norm_lines (node_lines ns).
 Proof.
-  intros ns H. unfold srt_raw, sp_lines. rewrite norm_lines_split_strip.
+  intros ns H. unfold srt_raw, node_lines. rewrite norm_lines_split_strip.
   rewrite <- (split_srt_pieces ns [] H eq_refl). reflexivity.
 Qed.
 
@@ -114,7 +104,7 @@ Proof.
 Qed.
 
 Theorem srt_content_authored_lines : forall ns, texts_no 10 ns = true ->
-  norm_lines (srt_content_lines ns) = norm_lines (sp_lines ns).
+  norm_lines (srt_content_lines ns) = norm_lines (node_lines ns).
 Proof. intros ns H. unfold srt_content_lines. rewrite norm_lines_filter_nonblank. apply srt_raw_lines. exact H. Qed.
 
 (* the pinned writer (no filtering) did leave a blank line inside the cue *)
@@ -288,12 +278,11 @@ Proof.
   rewrite forallb_rev. apply forallb_lstrip. exact H.
 Qed.
 
-Lemma srt_pieces_no : forall x ns, x <> 32 -> x <> 10 -> texts_no x ns = true -> no_ch x (concat (map srt_piece ns)) = true.
+Lemma srt_pieces_no : forall x ns, x <> 10 -> texts_no x ns = true -> no_ch x (concat (map srt_piece ns)) = true.
 Proof.
-  intros x ns H32 H10. induction ns as [|n ns IH]; intros H; [reflexivity|].
+  intros x ns H10. induction ns as [|n ns IH]; intros H; [reflexivity|].
   destruct n as [s| |a b]; cbn [map concat srt_piece texts_no] in *.
-  - apply andb_true_iff in H. destruct H as [Hs Ht]. rewrite !no_ch_app, Hs, (IH Ht).
-    change (no_ch x (lit " ")) with (negb (32 =? x) && true). destruct (Z.eqb_spec 32 x); [congruence|]. reflexivity.
+  - apply andb_true_iff in H. destruct H as [Hs Ht]. rewrite no_ch_app, Hs, (IH Ht). reflexivity.
   - rewrite no_ch_app, (IH H). change (no_ch x [10]) with (negb (10 =? x) && true).
     destruct (Z.eqb_spec 10 x); [congruence|]. reflexivity.
   - exact (IH H).
@@ -305,7 +294,7 @@ Proof.
   pose proof (split_ch_no_sep 10 _ l Hl) as H10.
   assert (Hc : no_ch 13 l = true).
   { apply (split_ch_forallb _ 10 (srt_raw ns) l); [|exact Hl]. unfold srt_raw. apply forallb_strip.
-    apply srt_pieces_no; [discriminate|discriminate|exact H13]. }
+    apply srt_pieces_no; [discriminate|exact H13]. }
   unfold no_eol. apply forallb_forall. intros c Hin.
   unfold no_ch in Hc. rewrite forallb_forall in H10, Hc. rewrite (H10 c Hin), (Hc c Hin). reflexivity.
 Qed.
@@ -332,9 +321,9 @@ Proof.
   cbn [srt_all_lines].
   destruct (dec_z_digits k Hk) as [Hd Hn]. destruct (digits_facts _ Hd Hn) as (_ & _ & Hdn & _).
   rewrite app_assoc. rewrite runs_by_nonblank_app.
-  2:{ rewrite forallb_app. cbn [forallb]. rewrite !is_blank_nonblank, Hdn, Hnb. cbn [negb andb].
+  2:{ rewrite forallb_app. cbn [forallb]. rewrite (nonblank_not_blank _ Hdn), (nonblank_not_blank _ Hnb). cbn [negb andb].
       apply forallb_forall. intros l0 Hl0. unfold srt_content_lines in Hl0. apply filter_In in Hl0.
-      rewrite is_blank_nonblank. destruct Hl0 as [_ ->]. reflexivity. }
+      destruct Hl0 as [_ Hl0]. rewrite (nonblank_not_blank _ Hl0). reflexivity. }
   cbn [app runs_by]. change (is_blank []) with true. cbv iota.
   rewrite app_nil_r. destruct (rev (dec_z k :: tl :: srt_content_lines ns)) eqn:E.
   { apply (f_equal (@length str)) in E. rewrite rev_length in E. cbn in E. lia. }
@@ -361,9 +350,9 @@ Qed.
 (* the reference SRT block grammar reads the written document back: one block per caption, in order, whose
    text lines are the caption's non-blank lines *)
 Theorem srt_blocks_roundtrip : forall caps, caps <> [] -> Forall srt_cap_ok caps ->
-  srt_cues (srt_doc caps) = Some (map (fun c => srt_content_lines (snd c)) caps).
+  srt_cues (srt_doc_merged caps) = Some (map (fun c => srt_content_lines (snd c)) caps).
 Proof.
-  intros caps Hne H. unfold srt_cues, srt_doc.
+  intros caps Hne H. unfold srt_cues, srt_doc_merged.
   rewrite srt_blocks_lines by exact H.
   assert (Hlast : exists L, srt_all_lines 1 caps = L ++ [[]]).
   { clear H. generalize 1. induction caps as [|[tl ns] caps IH]; intros k; [congruence|].
@@ -382,16 +371,87 @@ Proof.
   apply srt_blocks_text; [lia|exact H].
 Qed.
 
+(* ---- SRT: the model meets the oracle -------------------------------------------------------------------------- *)
+Lemma trim_lines_filter_nonblank : forall ls, trim_lines (filter nonblank ls) = trim_lines ls.
+Proof.
+  induction ls as [|l ls IH]; [reflexivity|]. cbn [filter]. unfold trim_lines in *. destruct (nonblank l) eqn:E.
+  - cbn [map filter]. rewrite IH. reflexivity.
+  - cbn [map filter]. unfold nonblank in E. destruct (strip l); [cbn [SpecTextLines.nonempty]; exact IH|discriminate].
+Qed.
+
+Lemma srt_content_trim : forall ns, texts_no 10 ns = true ->
+  trim_lines (srt_content_lines ns) = trim_lines (node_lines ns).
+Proof.
+  intros ns H. unfold srt_content_lines, srt_raw, node_lines. rewrite trim_lines_filter_nonblank, trim_lines_split_strip.
+  rewrite <- (split_srt_pieces ns [] H eq_refl). reflexivity.
+Qed.
+
+Lemma strs_eqb_refl : forall l, strs_eqb l l = true.
+Proof.
+  induction l as [|x l IH]; [reflexivity|]. cbn [strs_eqb]. rewrite IH, andb_true_r.
+  induction x as [|c x IHx]; [reflexivity|]. cbn [str_eqb]. rewrite Z.eqb_refl, IHx. reflexivity.
+Qed.
+
+Lemma ok_cues_strict_map : forall (A : Type) (f g : A -> list str) l,
+  (forall x, In x l -> trim_lines (f x) = trim_lines (g x)) -> ok_cues_strict (map f l) (map g l) = true.
+Proof.
+  intros A f g l. induction l as [|x l IH]; intros H; [reflexivity|].
+  cbn [map ok_cues_strict]. unfold ok_lines_strict. rewrite (H x (or_introl eq_refl)), strs_eqb_refl. cbn [andb].
+  apply IH. intros y Hy. apply H. right. exact Hy.
+Qed.
+
+(* the document the SRT writer model produces is read by the reference block grammar as one cue per (merged)
+   caption whose lines are the authored lines up to leading / trailing white space: the property oracle is true *)
+Theorem srt_doc_meets_oracle : forall caps, srt_merge caps <> [] -> Forall srt_cap_ok (srt_merge caps) ->
+  exists cues, srt_cues (srt_doc caps) = Some cues /\
+               ok_cues_strict (map (fun c => node_lines (snd c)) (srt_merge caps)) cues = true.
+Proof.
+  intros caps Hne H. unfold srt_doc. rewrite (srt_blocks_roundtrip _ Hne H). eexists. split; [reflexivity|].
+  apply ok_cues_strict_map. intros c Hc. symmetry. apply srt_content_trim.
+  rewrite Forall_forall in H. destruct (H c Hc) as (_ & _ & _ & H10 & _). exact H10.
+Qed.
+
+(* what the merge does: consecutive captions with the same timing line become one, joined by a break *)
+Example srt_merge_example :
+  srt_merge [(lit "t1", [NText (lit "a")]); (lit "t1", [NText (lit "b")]); (lit "t2", [NText (lit "c")])]
+  = [(lit "t1", [NText (lit "a"); NBreak; NText (lit "b")]); (lit "t2", [NText (lit "c")])].
+Proof. reflexivity. Qed.
+
 (* ---- MicroDVD ---------------------------------------------------------------------------------- *)
 Definition mdvd_raw (ns : list node) : str := concat (map mdvd_piece ns).
 Definition is_pipe (c : Z) : bool := c =? 124.
 
-Lemma split_mdvd_pieces : forall ns cur, texts_no 124 ns = true -> no_ch 124 cur = true ->
-  split_ch 124 (cur ++ mdvd_raw ns) = node_lines_aux ns cur.
+(* texts without CR / LF (what every reader produces) are written as they are *)
+Lemma mdvd_nl_id : forall s, no_ch 10 s = true -> no_ch 13 s = true -> mdvd_nl s = s.
 Proof.
-  unfold mdvd_raw. induction ns as [|n ns IH]; intros cur Ht Hc.
+  induction s as [|c t IH]; intros H10 H13; [reflexivity|].
+  cbn [no_ch forallb] in H10, H13. apply andb_true_iff in H10. apply andb_true_iff in H13.
+  destruct H10 as [A10 B10]. destruct H13 as [A13 B13].
+  cbn [mdvd_nl]. destruct (Z.eqb_spec c 13) as [->|_]; [discriminate|].
+  destruct (Z.eqb_spec c 10) as [->|_]; [discriminate|]. f_equal. apply IH; assumption.
+Qed.
+Definition mdvd_piece0 (n : node) : str :=
+  match n with NText s => s | NBreak => lit "|" | NStyle _ _ => [] end.
+Definition mdvd_raw0 (ns : list node) : str := concat (map mdvd_piece0 ns).
+Lemma mdvd_raw_plain : forall ns, texts_no 10 ns = true -> texts_no 13 ns = true -> mdvd_raw ns = mdvd_raw0 ns.
+Proof.
+  unfold mdvd_raw, mdvd_raw0. induction ns as [|n ns IH]; intros H10 H13; [reflexivity|].
+  destruct n as [s| |a b]; cbn [map concat mdvd_piece mdvd_piece0 texts_no] in *.
+  - apply andb_true_iff in H10. apply andb_true_iff in H13. destruct H10 as [A B]. destruct H13 as [C D].
+    rewrite (mdvd_nl_id s A C), (IH B D). reflexivity.
+  - rewrite (IH H10 H13). reflexivity.
+  - rewrite (IH H10 H13). reflexivity.
+Qed.
+(* a line end inside a text node becomes a line break, also at the edges of the node *)
+Example mdvd_nl_example : mdvd_nl (lit "a" ++ [13; 10] ++ lit "b" ++ [13] ++ lit "c" ++ [10]) = lit "a|b|c|".
+Proof. vm_compute. reflexivity. Qed.
+
+Lemma split_mdvd_pieces : forall ns cur, texts_no 124 ns = true -> no_ch 124 cur = true ->
+  split_ch 124 (cur ++ mdvd_raw0 ns) = node_lines_aux ns cur.
+Proof.
+  unfold mdvd_raw0. induction ns as [|n ns IH]; intros cur Ht Hc.
   - cbn [map concat node_lines_aux]. rewrite split_ch_app_nosep by exact Hc. cbn. rewrite app_nil_r. reflexivity.
-  - destruct n as [s| |st sty]; cbn [map concat mdvd_piece node_lines_aux texts_no] in *.
+  - destruct n as [s| |st sty]; cbn [map concat mdvd_piece0 node_lines_aux texts_no] in *.
     + apply andb_true_iff in Ht. destruct Ht as [Hs Ht]. rewrite app_assoc.
       apply IH; [exact Ht|]. rewrite no_ch_app, Hc, Hs. reflexivity.
     + rewrite split_ch_app_nosep by exact Hc. change (lit "|") with [124]. cbn [app].
@@ -399,10 +459,10 @@ Proof.
     + cbn [app]. apply IH; assumption.
 Qed.
 
-Lemma mdvd_pieces_no : forall x ns, x <> 124 -> texts_no x ns = true -> no_ch x (mdvd_raw ns) = true.
+Lemma mdvd_pieces_no : forall x ns, x <> 124 -> texts_no x ns = true -> no_ch x (mdvd_raw0 ns) = true.
 Proof.
-  intros x ns H. unfold mdvd_raw. induction ns as [|n ns IH]; intros Ht; [reflexivity|].
-  destruct n as [s| |a b]; cbn [map concat mdvd_piece texts_no] in *.
+  intros x ns H. unfold mdvd_raw0. induction ns as [|n ns IH]; intros Ht; [reflexivity|].
+  destruct n as [s| |a b]; cbn [map concat mdvd_piece0 texts_no] in *.
   - apply andb_true_iff in Ht. destruct Ht as [Hs Ht]. rewrite no_ch_app, Hs, (IH Ht). reflexivity.
   - rewrite no_ch_app, (IH Ht). change (no_ch x (lit "|")) with (negb (124 =? x) && true).
     destruct (Z.eqb_spec 124 x); [congruence|]. reflexivity.
@@ -468,12 +528,12 @@ Proof.
     + rewrite <- app_assoc. reflexivity.
 Qed.
 
-Theorem mdvd_content_shape : forall ns, texts_no 10 ns = true ->
+Theorem mdvd_content_shape : forall ns, texts_no 10 ns = true -> texts_no 13 ns = true ->
   mdvd_content ns = rstrip_by is_pipe (strip (mdvd_raw ns)) ++ [10].
 Proof.
-  intros ns H. unfold mdvd_content. fold (mdvd_raw ns).
+  intros ns H H13. unfold mdvd_content. fold (mdvd_raw ns).
   assert (Hy : no_ch 10 (strip (mdvd_raw ns)) = true).
-  { apply forallb_strip. apply mdvd_pieces_no; [discriminate|exact H]. }
+  { rewrite (mdvd_raw_plain ns H H13). apply forallb_strip. apply mdvd_pieces_no; [discriminate|exact H]. }
   rewrite (while_replace_noop _ [10; 10] [10]) by (apply no_double_nl; exact Hy).
   change (lit "|" ++ [10]) with pipe_nl. apply while_pipe_nl; [|exact Hy].
   rewrite app_length. cbn. lia.
@@ -490,10 +550,10 @@ Qed.
 Definition mdvd_text (ns : list node) : str := rstrip_by is_pipe (strip (mdvd_raw ns)).
 
 (* the text written for a caption, split at '|', carries the authored lines *)
-Theorem mdvd_text_lines : forall ns, texts_no 124 ns = true ->
+Theorem mdvd_text_lines : forall ns, texts_no 124 ns = true -> texts_no 10 ns = true -> texts_no 13 ns = true ->
   norm_lines (split_ch 124 (mdvd_text ns)) = norm_lines (node_lines ns).
 Proof.
-  intros ns H. unfold mdvd_text. rewrite norm_lines_split_rstrip_pipes, norm_lines_split_strip.
+  intros ns H H10 H13. unfold mdvd_text. rewrite (mdvd_raw_plain ns H10 H13). rewrite norm_lines_split_rstrip_pipes, norm_lines_split_strip.
   unfold node_lines. rewrite <- (split_mdvd_pieces ns [] H eq_refl). reflexivity.
 Qed.
 
@@ -536,10 +596,10 @@ Lemma mdvd_doc_lines : forall caps, Forall mdvd_cap_ok caps ->
   mdvd_doc caps = nl_terminated (map (fun c => fst c ++ mdvd_text (snd c)) caps).
 Proof.
   induction caps as [|c caps IH]; intros H; [reflexivity|].
-  inversion H as [|x l Hc Hrest]; subst. destruct Hc as (_ & H10 & _).
+  inversion H as [|x l Hc Hrest]; subst. destruct Hc as (_ & H10 & H13).
   unfold mdvd_doc in *. cbn [map concat]. rewrite (IH Hrest).
   change (nl_terminated (?x :: ?l)) with ((x ++ [10]) ++ nl_terminated l).
-  unfold nl_terminated. cbn [map concat]. rewrite mdvd_content_shape by exact H10.
+  unfold nl_terminated. cbn [map concat]. rewrite mdvd_content_shape by assumption.
   unfold mdvd_text. rewrite <- !app_assoc. reflexivity.
 Qed.
 
@@ -561,7 +621,7 @@ Proof.
   unfold mdvd_prefix_of. rewrite !no_eol_app, (digits_no_eol a Ha), (digits_no_eol b Hb).
   change (no_eol [123]) with true. change (no_eol [125]) with true. cbn [andb].
   assert (G : forall x, x <> 124 -> texts_no x ns = true -> no_ch x (mdvd_text ns) = true).
-  { intros x Hx Ht. unfold mdvd_text, no_ch. apply forallb_rstrip. apply forallb_strip. apply mdvd_pieces_no; assumption. }
+  { intros x Hx Ht. unfold mdvd_text. rewrite (mdvd_raw_plain ns H10 H13). unfold no_ch. apply forallb_rstrip. apply forallb_strip. apply mdvd_pieces_no; assumption. }
   pose proof (G 10 ltac:(discriminate) H10) as G10. pose proof (G 13 ltac:(discriminate) H13) as G13.
   unfold no_eol. apply forallb_forall. intros c Hc. unfold no_ch in G10, G13. rewrite forallb_forall in G10, G13.
   rewrite (G10 c Hc), (G13 c Hc). reflexivity.
@@ -590,3 +650,34 @@ Definition ex_caps : list (str * list node) :=
   [(lit "00:00:01,000 --> 00:00:02,000", [NText (lit "1"); NBreak; NBreak; NText (lit "00:00:05,000 --> x")]);
    (lit "00:00:03,000 --> 00:00:04,000", [NBreak; NText (lit "b"); NBreak; NText []; NBreak])].
 
+
+(* ---- MicroDVD: the model meets the oracle ------------------------------------------------------------------------ *)
+Lemma trim_lines_split_rstrip_pipes : forall s,
+  trim_lines (split_ch 124 (rstrip_by is_pipe s)) = trim_lines (split_ch 124 s).
+Proof.
+  induction s as [|w s IH] using rev_ind; [reflexivity|].
+  rewrite rstrip_by_snoc. unfold is_pipe at 1. destruct (Z.eqb_spec w 124) as [->|Hw]; [|reflexivity].
+  rewrite IH, split_ch_snoc_sep. unfold trim_lines. rewrite map_app, filter_app. cbn. rewrite app_nil_r. reflexivity.
+Qed.
+
+Theorem mdvd_text_trim : forall ns, texts_no 124 ns = true -> texts_no 10 ns = true -> texts_no 13 ns = true ->
+  trim_lines (split_ch 124 (mdvd_text ns)) = trim_lines (node_lines ns).
+Proof.
+  intros ns H H10 H13. unfold mdvd_text. rewrite (mdvd_raw_plain ns H10 H13). rewrite trim_lines_split_rstrip_pipes, trim_lines_split_strip.
+  unfold node_lines. rewrite <- (split_mdvd_pieces ns [] H eq_refl). reflexivity.
+Qed.
+
+Theorem mdvd_doc_meets_oracle : forall caps, Forall mdvd_cap_ok caps ->
+  (forall c, In c caps -> texts_no 124 (snd c) = true) ->
+  exists cues, mdvd_cues (mdvd_doc caps) = Some cues /\
+               ok_cues_strict (map (fun c => node_lines (snd c)) caps) cues = true.
+Proof.
+  intros caps H Hp. rewrite (mdvd_doc_roundtrip caps H). eexists. split; [reflexivity|].
+  apply ok_cues_strict_map. intros c Hc. symmetry. rewrite Forall_forall in H. destruct (H c Hc) as (_ & H10 & H13).
+  apply mdvd_text_trim; [apply Hp; exact Hc|exact H10|exact H13].
+Qed.
+
+Example mdvd_cap_ok_example : Forall mdvd_cap_ok [(lit "{25}{50}", [NBreak; NText (lit " a{1}{2}"); NBreak; NText (lit "b ")])].
+Proof.
+  repeat constructor. exists (lit "25"), (lit "50"). repeat split; try reflexivity; discriminate.
+Qed.
